@@ -17,6 +17,7 @@ import (
 type libFn func(fr *Frame, in ssa.Instruction, st *State, args []Value, rt types.Type) Value
 
 type Engine struct {
+	renameNotes []string // contracts rebound after a pure rename of declarations (rename.go)
 	fset    *token.FileSet
 	prog    *ssa.Program
 	pkgs    map[string]*packages.Package
@@ -338,6 +339,7 @@ func LoadEngine(repoDir string, patterns []string, mirrorDir string) (*Engine, e
 	if err := e.resolveFieldConstraints(); err != nil {
 		return e, err
 	}
+	e.applyRenames()
 	return e, nil
 }
 
